@@ -22,6 +22,7 @@ LEVEL_TEXT = (
     "checked against per-native-kind emission contracts / invariants (classes, flavour source, order, path roles, sub-event "
     "generators, root handling, inode bookkeeping); who-may-call rule for the base queue_event in FSEventsEmitter; constant folding "
     "of the inotify record header size against struct.calcsize of the unpack format; structural rules on the Windows buffer walk."
+    " Also: the three FSEvents predicates (_is_recursive_event, _is_historic_created_event, _is_meta_mod) are decided as truth tables over their own paths; modified events and the rename partner's flags are part of the invariants; the wiring to the native layer (callback columns, registration before the read loop, Windows handle life cycle, the records actually iterated) is checked structurally."
 )
 
 WIN_FLAGS = ["is_renamed_old", "is_renamed_new", "is_modified", "is_added", "is_removed", "is_removed_self"]
